@@ -73,6 +73,10 @@ def build_tree(rng, u, reg, root, i):
             d.add(dirs.Entry(rng.choice(["archive/", "sub.dir/", "x/y/z/"]) + e.name, e.pel, e.data, junk=True))
     if rng.random() < 0.5:
         os.makedirs(os.path.join(d.root, "emptydir"), exist_ok=True)
+    if ents and rng.random() < 0.4:      # a directory whose name contains an entry id (only files may be deleted)
+        os.makedirs(os.path.join(d.root, "dir_%08X" % ents[0].pel.eid, "inner"), exist_ok=True)
+        with open(os.path.join(d.root, "dir_%08X" % ents[0].pel.eid, "inner", "keep_%08X" % ents[0].pel.eid), "wb") as f:
+            f.write(b"keep me")
     # top-level non-PEL files; some carry an id in their name
     for k in range(rng.randrange(0, 4)):
         nm = rng.choice(["notes.txt", "README", "junk%d.bin" % k, "%08X.json" % rng.randrange(1 << 32),
